@@ -34,7 +34,10 @@ CONSTANTS
           \* @type: Int;
           DefaultPeriod,  \* the documented default (1000 ms) in ticks
           \* @type: Bool;
-          Atomic          \* TRUE = ideal (check+record atomic), FALSE = deviation
+          Atomic,         \* TRUE = ideal (check+record atomic), FALSE = deviation
+          \* @type: Bool;
+          ReinstallResets \* deviation: a new configuration from the service in which THIS tracepoint is unchanged
+                          \* (another one was added or removed) rebuilds it with fresh counters
 
 VARIABLES
           \* @type: {ck: Str, cv: Int, pk: Str, pv: Int, ws: Int, we: Int, cm: Str};
@@ -166,8 +169,16 @@ Exit(t) ==
               /\ last' = ts[t]
     /\ UNCHANGED <<cfg, now, ts, cond, fires, hits, outcome>>
 
+(* the service sends a new configuration (some OTHER tracepoint changed); this tracepoint is in it, unchanged: it *)
+(* stays installed, and so do its fire count and the time of its last fire                                        *)
+Reinstall ==
+    /\ \A t \in Threads : pc[t] = "idle"
+    /\ IF ReinstallResets THEN count' = 0 /\ last' = 0 ELSE UNCHANGED <<count, last>>
+    /\ UNCHANGED <<cfg, now, pc, ts, cond, fires, hits, outcome>>
+
 Next ==
     \/ Tick
+    \/ Reinstall
     \/ \E t \in Threads :
          \/ \E c \in CondKinds : Arrive(t, c)
          \/ PreCheck(t) \/ EvalCond(t) \/ Reserve(t) \/ Collect(t) \/ Exit(t)
@@ -186,7 +197,7 @@ WindowRespected == \A i \in 1..Len(fires) : InWindow(fires[i])
 
 (* the stats never run ahead of / behind the collections once everything is quiet *)
 Quiet == \A t \in Threads : pc[t] = "idle"
-StatsAgree == Quiet => (count = Len(fires) /\ (count > 0 => \E i \in 1..Len(fires) : fires[i] = last))
+StatsAgree == (Quiet /\ ~ReinstallResets) => (count = Len(fires) /\ (count > 0 => \E i \in 1..Len(fires) : fires[i] = last))
 
 (* C04 second half / C10: a hit that the limits allow and whose condition holds does collect; a *)
 (* rejected hit changes neither the count nor the last-fire time.                                *)
